@@ -17,6 +17,9 @@ META = {
                   "produce the same file (token + length) as into a fresh location; listings are compared with the library view per output-format option (mpq list plain/--long/"
                   "--filter, wdt tiles text/csv/json, dbc export json/csv row counts) over name classes {lower, UPPER, MiXed, nested, with spaces, non-ASCII}; validate flags "
                   "(blp --strict, wdl --version) are exercised on files that violate only the flag's rule, the library being asked per flag. "
+                  "Round 5: the GLOBAL options (-q, -v, -vv) are a dimension of every sub-command (one succeeding and one failing run each, and half of the pipeline sample); "
+                  "bulk mpq commands run on archives of 11/26/999/1000/1001/2001 tiny files (thorough: up to 10001) around the window / batch constants; `mpq rebuild` is judged "
+                  "against the library on a source holding plain, encrypted, fix-key, multi-sector and special files with default flags, --verify and --skip-encrypted. "
                   "Failure classes are relative to the library's verdict on the same bytes (same entry point as the sub-command where they differ: wmo convert). "
                   "Damage that the library tolerates creates no obligation. Only `validate` output is scanned for a printed failure verdict. Conversions are "
                   "checked for existence + re-parse of the output, not for semantic equality. mpq db (touches the user's database directory), dbd and "
@@ -32,7 +35,7 @@ META = {
 
 def sig(b):
     r = b.get("rec") or {}
-    return {"ev": b.get("ev"), "fam": r.get("fam"), "cmd": r.get("cmd"), "kind": r.get("kind"), "input": r.get("input"), "opt": r.get("opt"), "pre": r.get("pre"),
+    return {"ev": b.get("ev"), "fam": r.get("fam"), "cmd": r.get("cmd"), "kind": r.get("kind"), "input": r.get("input"), "opt": r.get("opt"), "pre": r.get("pre"), "glob": r.get("glob", ""), "count": (b.get("reset") or {}).get("count"),
             "why": str(b.get("why", "")).strip().strip('"')}
 
 
